@@ -292,7 +292,7 @@ def bounded(tier, seed):
     res = native("routes.py", {"seed": seed, "n": 2 if tier == "quick" else 12}, timeout=3000)
     if not res.get("ok"):
         raise RuntimeError(f"native driver failed: {res}")
-    return [{"name": "all_routes_on_random_instances", "bound": "random grids of every class x operators x BC kinds (incl. time-dependent callables with args): field methods, make_operator on numba/scipy with and without out, make_operator_no_bc after set_ghost_cells, compiled vs interpreted setters, matrix route, 1 vs many threads",
+    return [{"name": "all_routes_on_random_instances", "bound": "random grids of every class x operators x BC kinds (incl. time-dependent callables with args): field methods, make_operator on numba/scipy with and without out, make_operator_no_bc after set_ghost_cells, compiled vs interpreted setters, matrix route, 1 vs many threads; scipy vs numba on grids with tiny cells of different size per axis (refused or equal)",
              "cases": res["cases"], "failures": res["failures"]}]
 
 
